@@ -2,7 +2,7 @@
 TRUSTED = ("Trusted base: the instrumenter's rewrite preserves behaviour (the instrumented copy passes go-cty's own suite under ascending, descending and rotated map order); "
            "the checker's model/oracle code; the Go toolchain. Sampling, not proof: a clean batch is evidence only.")
 
-for p in ["C03","C06","C10","C17","C19"]:
+for p in ["C06","C10","C17","C19"]:
     PENDING[p] = "check under construction in this round (will be claimed; see DESIGN.md §5)"
 
 claim("C05",
@@ -18,3 +18,9 @@ claim("C20",
   TRUSTED + " Races are found by the Go race detector (history_size=7, sync.Pool and math/big divisor-table lock neutralised in the simulation build only); interleavings are sampled (random, PCT, round-robin, call-granular), not enumerated.",
   "DESIGN.md §5 C20")
 PENDING.pop("C20", None)
+
+claim("C03",
+  "deterministic simulation: seeded histories of ValueSet / set-value operations (copy-and-diverge, permuted rebuilds, algebra) under controlled map order against a model set keyed by the documented equality; equivalence laws as cross-invariants",
+  "Seeded search over histories of 8..57 set operations (Add, Remove, Has, Copy and diverge, the four algebra operations, SetVal of a drawn multiset in two orders, wrap/unwrap between ValueSet and set value, HasElement, Length, stdlib set functions, re-adding in a shuffled order) over a collision-biased population (the same number at other precisions, strings in other spellings, nulls, refined unknowns, 15 element types) under every map-order policy. After every step the touched set is compared with a model set keyed by the checker's own canonical key; two sets with equal model contents must iterate in the same key order; the equivalence laws (RawEquals reflexive/symmetric/transitive, Equals symmetric, nulls equal, Equals agreeing with RawEquals and with the documented equality on wholly-known values, trichotomy on numbers, equal implies same hash) are checked on sampled pairs and triples of the population and of a mixed-type population. Exploration is the right level: the second half of the statement quantifies over histories of a mutable helper object and the failures need collisions between representations plus a particular insertion order.",
+  TRUSTED + " The canonical key is computed with math/big and x/text only, never through go-cty.",
+  "DESIGN.md §5 C03")
